@@ -4,6 +4,7 @@ package main
 // obligations, report violations / known findings, write evidence.
 
 import (
+	"regexp"
 	"encoding/json"
 	"fmt"
 	"go/types"
@@ -26,6 +27,30 @@ type engine struct {
 	vcCache map[vcKey]*funcVC
 	vcErr   map[vcKey]error
 	known   *knownFindings
+	scopes  map[string]map[*ssa.Function]bool
+}
+
+// inScope: fn belongs to the safety sweep of the property (reachable from the property's scope roots).
+func (e *engine) inScope(fn *ssa.Function, prop string) bool {
+	if prop == "" {
+		return false
+	}
+	roots := e.w.db.Scopes[prop]
+	if len(roots) == 0 {
+		return false
+	}
+	if e.scopes == nil {
+		e.scopes = map[string]map[*ssa.Function]bool{}
+	}
+	set, ok := e.scopes[prop]
+	if !ok {
+		set = map[*ssa.Function]bool{}
+		for _, f := range e.reachable(roots) {
+			set[f] = true
+		}
+		e.scopes[prop] = set
+	}
+	return set[fn]
 }
 
 func newEngine(repo, verif, tier string, patterns []string) (*engine, error) {
@@ -109,6 +134,9 @@ type vcKey struct {
 
 // layerFor: a function is verified in the property's own layer if one of its contracts has clauses for it.
 func (e *engine) layerFor(fn *ssa.Function, prop string) string {
+	if e.inScope(fn, prop) {
+		return prop
+	}
 	if ct := e.w.db.Contracts[fn.String()]; ct != nil && ct.hasLayer(prop) {
 		return prop
 	}
@@ -157,6 +185,9 @@ func (e *engine) buildVC(fn *ssa.Function, layer string) (*funcVC, error) {
 			}
 		}
 	}
+	if layer != "" && e.inScope(fn, layer) && !seen["s"+layer] {
+		vc.safetyProps = append(vc.safetyProps, layer)
+	}
 	vc.safety = len(vc.safetyProps) > 0
 	vc.termP = vc.safetyProps
 	err := vc.run()
@@ -178,9 +209,85 @@ type checkResult struct {
 	wall        float64
 }
 
+// alwaysInlined: the static part of (*frame).willInline - a loop-free, non-recursive function without a contract (or
+// with an `inline` contract) that is not reached through an interface is executed in place wherever it is called.
+// (Beyond the inlining depth such a call is treated as opaque and recorded as an assumption.)
+func (e *engine) alwaysInlined(fn *ssa.Function) bool {
+	ct := e.w.db.Contracts[fn.String()]
+	if ct != nil && !ct.Inline {
+		return false
+	}
+	if fn.Signature.Recv() != nil && e.w.implementsModuleIface(fn) {
+		return false
+	}
+	if fn.Parent() != nil {
+		return false // closures are reached through go/defer/function values
+	}
+	if e.w.recFuncs == nil {
+		e.w.computeSCCs(e.ma)
+	}
+	if e.w.recFuncs[fn] && (ct == nil || !ct.Inline) {
+		return false
+	}
+	if ct == nil || !ct.Inline {
+		for _, b := range fn.Blocks {
+			for _, sc := range b.Succs {
+				if sc.Dominates(b) {
+					return false
+				}
+			}
+		}
+	}
+	return true
+}
+
+// reachable: the module functions reachable from the named roots over static calls, interface dispatch within the
+// module, go statements, defers and closures.
+func (e *engine) reachable(roots []string) []*ssa.Function {
+	seen := map[*ssa.Function]bool{}
+	var order []*ssa.Function
+	var visit func(fn *ssa.Function)
+	visit = func(fn *ssa.Function) {
+		if fn == nil || seen[fn] || fn.Blocks == nil {
+			return
+		}
+		if fn.Pkg != nil && !e.w.inModule(fn.Pkg.Pkg.Path()) {
+			return
+		}
+		if fn.Pkg == nil && (fn.Parent() == nil || fn.Parent().Pkg == nil || !e.w.inModule(fn.Parent().Pkg.Pkg.Path())) {
+			if _, ok := e.w.funcs[fn.String()]; !ok {
+				return
+			}
+		}
+		seen[fn] = true
+		order = append(order, fn)
+		for _, b := range fn.Blocks {
+			for _, ins := range b.Instrs {
+				if ci, ok := ins.(ssa.CallInstruction); ok {
+					fs, _ := e.ma.callees(ci.Common())
+					for _, f := range fs {
+						visit(f)
+					}
+				}
+				if mc, ok := ins.(*ssa.MakeClosure); ok {
+					visit(mc.Fn.(*ssa.Function))
+				}
+			}
+		}
+	}
+	for _, r := range roots {
+		visit(e.w.funcs[r])
+	}
+	return order
+}
+
 func (e *engine) plan(prop string) (primary []*ssa.Function, err error) {
 	seen := map[*ssa.Function]bool{}
+	scoped := len(e.w.db.Scopes[prop]) > 0
 	for _, ref := range sortedKeys(e.w.db.Contracts) {
+		if scoped {
+			break // a property with a scope is decided on exactly the functions reachable from its roots
+		}
 		ct := e.w.db.Contracts[ref]
 		lab, saf := contractMentions(ct, prop)
 		if !lab && !saf {
@@ -207,6 +314,27 @@ func (e *engine) plan(prop string) (primary []*ssa.Function, err error) {
 			primary = append(primary, fn)
 		}
 	}
+	if roots := e.w.db.Scopes[prop]; len(roots) > 0 {
+		for _, r := range roots {
+			if e.w.funcs[r] == nil {
+				return nil, fmt.Errorf("scope %s: unknown root function %s", prop, r)
+			}
+		}
+		isRoot := map[string]bool{}
+		for _, r := range roots {
+			isRoot[r] = true
+		}
+		for _, fn := range e.reachable(roots) {
+			// functions that are always executed in place at their call sites are checked there, in context
+			if !isRoot[fn.String()] && e.alwaysInlined(fn) {
+				continue
+			}
+			if !seen[fn] {
+				seen[fn] = true
+				primary = append(primary, fn)
+			}
+		}
+	}
 	return primary, nil
 }
 
@@ -217,6 +345,18 @@ func (e *engine) check(prop string) *checkResult {
 	if err != nil {
 		res.errors = append(res.errors, err.Error())
 		return res
+	}
+	if only := os.Getenv("GRITSVC_ONLY"); only != "" {
+		// development aid: restrict the primary functions (never used by the registered commands)
+		re := regexp.MustCompile(only)
+		var keep []*ssa.Function
+		for _, f := range primary {
+			if re.MatchString(f.String()) {
+				keep = append(keep, f)
+			}
+		}
+		primary = keep
+		res.notes["GRITSVC_ONLY="+only+": partial run"] = true
 	}
 	inSet := map[*ssa.Function]bool{}
 	isPrimary := map[*ssa.Function]bool{}
@@ -253,7 +393,7 @@ func (e *engine) check(prop string) *checkResult {
 				if cf != fn {
 					usedBy[cf] = true
 				}
-				if !inSet[cf] {
+				if !inSet[cf] && os.Getenv("GRITSVC_ONLY") == "" {
 					inSet[cf] = true
 					work = append(work, cf)
 				}
@@ -275,6 +415,11 @@ func (e *engine) check(prop string) *checkResult {
 			res.unsupported = append(res.unsupported, fn.String()+": "+u)
 		}
 		for a := range vc.assumed {
+			if layer != "" && e.inScope(fn, layer) && strings.HasPrefix(a, "uncontracted module ") {
+				// within a sweep every module function is itself checked: what remains assumed is only that the
+				// result of the call is unconstrained (an over-approximation)
+				continue
+			}
 			res.assumptions[a] = true
 		}
 		for a := range vc.c.usedAxioms {
